@@ -169,6 +169,11 @@ func runScript(dir string, ops []nscript.Op, spec *crashSpec, tracePath string) 
 					died(nscript.Op{Kind: "startup"})
 					return res, n
 				}
+				if err == procnode.ErrPortInUse {
+					res.Inconcl = "port in use"
+					n.Kill()
+					return res, n
+				}
 				res.Problem = fmt.Sprintf("node did not come back after scripted %s (op %d): %v", op.Kind, i, err)
 				res.Key = "scripted-restart-failed"
 				n.Kill()
@@ -242,6 +247,10 @@ func verify(dir string, res *caseResult, n *procnode.Node) {
 		}
 		defer nd.Kill()
 		if err := nd.WaitReady(60 * time.Second); err != nil {
+			if err == procnode.ErrPortInUse {
+				res.Inconcl = "port in use"
+				return ""
+			}
 			res.Problem = fmt.Sprintf("%s: node does not become ready after the crash: %v", label, err)
 			res.Key = "restart-failed:" + label
 			res.LogTail = tailFile(nd.LogPath, 3000)
